@@ -1271,6 +1271,35 @@ fn c16_profiles() -> Vec<(&'static str, Profile, u32, u32)> {
     vec![("hist", p, 40000, 750000)]
 }
 
+// C16 also holds for an fd that changes hands INSIDE a wrapper: TransientSource children over one shared descriptor
+// (replace / remove / refill followed by update or Reregister). C16 re-runs C18's shared-fd family and keeps the rules
+// about the kernel table and about registration calls that fail although nothing is wrong with the fd.
+fn c16_keep((info, v): CaseOutcome) -> CaseOutcome {
+    let v = v.filter(|v| v.rule == "C18.reg").map(|mut v| {
+        v.sig = v.sig.replace("C18.reg", "C16.transient");
+        v.rule = "C16.transient".to_string();
+        v
+    });
+    (info, v)
+}
+
+fn c16_transient(ctx: &CheckCtx, _hp: &'static HistProp) -> Option<Found> {
+    use crate::props::c18;
+    let avoid = ctx.known_open(c18::SIG_F11);
+    if let Some(f) = ctx.run_replays::<c18::Case, _>("transient_same_fd", |c| c16_keep(c18::run_case(c))) {
+        return Some(f);
+    }
+    ctx.search("transient_same_fd", c18::same_fd_strategy(14, avoid), ctx.tier.pick(60_000, 600_000), 16, Some(std::time::Duration::from_secs(ctx.tier.pick(30, 180))), move |c| c16_keep(c18::run_case_with(c, avoid)))
+}
+
+pub fn c16_replay(sub: &str, case: serde_json::Value) -> Result<Option<Violation>, String> {
+    if sub == "transient_same_fd" {
+        let c: crate::props::c18::Case = serde_json::from_value(case).map_err(|e| e.to_string())?;
+        return Ok(c16_keep(crate::props::c18::run_case(&c)).1);
+    }
+    hist_replay(&C16, case)
+}
+
 pub static C16: HistProp = HistProp {
     id: "C16",
     meta: &C16_META,
@@ -1293,7 +1322,7 @@ pub static C16: HistProp = HistProp {
     epoll_each_step: true,
     workers: 8,
     table: None,
-    extra: None,
+    extra: Some(c16_transient),
 };
 
 pub fn all() -> Vec<&'static HistProp> {
